@@ -331,6 +331,9 @@ func sliceUnits(us []unit, start, length int) []byte {
 	if a > len(us) {
 		a = len(us)
 	}
+	if length > len(us) { // "rest of the line" lengths up to MaxInt64
+		length = len(us)
+	}
 	b := a + length
 	if b > len(us) {
 		b = len(us)
@@ -355,9 +358,19 @@ type fcol struct {
 	LinePat   *pat   `json:"line_pattern,omitempty"`
 }
 
-func (c fcol) coq() string {
-	return fmt.Sprintf("mkFCol %s %s %s %s %s", chex([]byte(c.Name)), vh.CoqNat(c.Start), vh.CoqNat(c.Len), coqOptNat(c.LineIndex), coqOptPat(c.LinePat))
+// coq prints the column for the model.  The model counts the length in unary; a declared length
+// beyond every line of the input is printed as `bound` (any number >= the input size): by
+// Props.C06.fixed_slice_huge_length every length >= the line's size gives the same slice.
+func (c fcol) coq(bound int) string {
+	l := c.Len
+	if l > bound {
+		l = bound
+	}
+	return fmt.Sprintf("mkFCol %s %s %s %s %s", chex([]byte(c.Name)), vh.CoqNat(c.Start), vh.CoqNat(l), coqOptNat(c.LineIndex), coqOptPat(c.LinePat))
 }
+
+// hugeLengths: "the rest of the line" written as a very large length (the JSON schema only asks for >= 1)
+var hugeLengths = []int{9223372036854775807, 9223372036854775806, 9223372036854775807 - 5, 4611686018427387904, 4611686018427387903, 2147483648, 2147483647, 4294967296, 1 << 40}
 
 func (c fcol) schema(allowLineIndex bool) map[string]interface{} {
 	m := map[string]interface{}{"name": c.Name, "start_pos": c.Start, "length": c.Len}
@@ -393,7 +406,15 @@ func genLayout(r *vh.Rng, width int) []fcol {
 		default:
 			c.Start, c.Len = r.Between(1, maxInt(1, width)), r.Between(1, maxInt(1, width))
 		}
-		pos = c.Start + c.Len
+		if r.Chance(0.12) { // rest of the line, from the first rune or from a later one
+			c.Len = hugeLengths[r.Pick(len(hugeLengths))]
+			if r.Chance(0.8) && c.Start < 2 {
+				c.Start = r.Between(2, maxInt(2, width))
+			}
+			pos = c.Start
+		} else {
+			pos = c.Start + c.Len
+		}
 		cols = append(cols, c)
 	}
 	return cols
